@@ -51,7 +51,7 @@ TEXTS = {
     "S": "===S===\nK::\"lone \ud800 surrogate\"\n===END===\n",  # readable, but its canonical text cannot be encoded as UTF-8: fails while staging
     "Z": "===Z===\nK::\n```\nline one\r\nline two\rend\n```\n===END===\n",  # CR bytes survive inside a literal zone
 }
-EXT = {"E1": TEXTS["A"].replace("K::a", "K::external").encode(), "E2": b"===E2===\nZ::1\n===END===\n", "EMPTY": b"", "BIN": b"\xff\xfe\x00binary\x80", "DEL": None}
+EXT = {"TAIL": b"", "RESPELL": b"", "E1": TEXTS["A"].replace("K::a", "K::external").encode(), "E2": b"===E2===\nZ::1\n===END===\n", "EMPTY": b"", "BIN": b"\xff\xfe\x00binary\x80", "DEL": None}
 STALE = hashlib.sha256(b"something that was never in the file").hexdigest()
 
 
@@ -76,11 +76,22 @@ def run_history(case, root):
     path = os.path.join(d, "h.oct.md")
     model_file = None  # bytes | None
     read_hash_then_ext = False
+    prev_hash = None  # hash of the file as it was before the latest external modification
     seen_ext_since_write = False
     for k, step in enumerate(case["steps"]):
         op = step["op"]
         if op == "ext":
+            prev_hash = sha(model_file) if model_file is not None else prev_hash
             b = EXT[step["what"]]
+            if step["what"] in ("TAIL", "RESPELL"):
+                # an edit that canonicalisation would erase: text after the closing envelope line / the same fields re-spelled.
+                # The bytes differ, so a base_hash taken before the edit no longer names the file
+                if model_file is None or b"===END===" not in model_file:
+                    b = EXT["E1"]
+                elif step["what"] == "TAIL":
+                    b = model_file + "\n§LATE::ADDED_BY_ANOTHER_WRITER\n  X::1\n".encode("utf-8")
+                else:
+                    b = model_file.replace(b"::", b" :: ").replace(b"\n===END===", b"\n\n===END===")
             if b is None:
                 if os.path.exists(path):
                     os.unlink(path)
@@ -99,6 +110,8 @@ def run_history(case, root):
             bh = sha(model_file) if model_file is not None else STALE
         elif hb == "stale":
             bh = STALE
+        elif hb == "prev":
+            bh = prev_hash or STALE
         elif hb == "new":
             bh = sha(new_c) if new_c is not None else STALE
         kw = {"target_path": path}
@@ -205,7 +218,7 @@ def diff_snap(a, b):
 def history_strategy():
     from hypothesis import strategies as hs
 
-    bh = hs.sampled_from(["none", "current", "current", "stale", "new"])
+    bh = hs.sampled_from(["none", "current", "current", "stale", "new", "prev"])
     step = hs.one_of(
         hs.builds(lambda c, b: {"op": "write", "content": c, "bh": b}, hs.sampled_from(["A", "B", "C", "X", "S", "Z"]), bh),
         hs.builds(lambda b: {"op": "changes", "bh": b}, bh),
